@@ -735,9 +735,6 @@ func (e *Engine) onArrive(t *thread, a *arrival) {
 		if r := t.run; r != nil {
 			r.SawCancelBranch = true
 			r.CallerPastSelect = true
-			if r.ChFilled || r.VMExited {
-				e.probe("cancelSeenButVMFinished")
-			}
 			e.armStall(t, a.site)
 		}
 	case tengo.VerifRunCtxAborted:
